@@ -95,6 +95,20 @@ def flat_line(tier, carrier='list_none', tcarrier='dt64'):
                 yield c, specs.FlatLine(c)
 
 
+def flat_line_fractional(tier, carrier='list_none', tcarrier='dt64'):
+    """sampling steps that are not whole seconds (2.5 s, 0.5 s) and a threshold that is not a whole number of seconds:
+    k = floor(threshold / D) with D the step in seconds, as a real number"""
+    for step, combos in ((Fr(5, 2), [(5, 10, 1), (Fr(15, 2), 10, 1)]), (Fr(1, 2), [(1, 2, 1)])):
+        for s, f, tol in combos:
+            for n in lengths(tier, [3, 5, 6], [3, 4, 5, 6, 7]):
+                for pat in pats_for(n, tier, cap=4):
+                    t = [100 + step * i for i in range(n)]
+                    kw = dict(suspect_threshold=s, fail_threshold=f, tolerance=Fr(tol))
+                    c = Case('flat_line_test', [data_input('inp', pat, carrier), time_input('tinp', t, tcarrier)], kw, n=n,
+                             pat={'inp': pat}, meta={'class': f'step-{float(step)}s', 't': t})
+                    yield c, specs.FlatLine(c)
+
+
 def attenuated(tier, carrier='list_none', tcarrier='dt64'):
     for ct in ('std', 'range'):
         # the last pair: small-magnitude data (a signal in units where it is of order 1e-9) - thresholds are not absolute sizes
@@ -125,6 +139,14 @@ def attenuated(tier, carrier='list_none', tcarrier='dt64'):
                         c = Case('attenuated_signal_test', [data_input('inp', pat, carrier), time_input('tinp', t, tcarrier)], kw, n=n,
                                  pat={'inp': pat}, meta={'class': ct + ('-window' if extra else '-whole'), 't': t})
                         yield c, specs.Attenuated(c)
+    # a sampling step of 1.5 s: min_period / step observations are required (the step is not a whole number of seconds)
+    for n in (3, 4):
+        for pat in pats_for(n, tier, cap=4):
+            tt = [100 + Fr(3, 2) * i for i in range(n)]
+            kw = dict(suspect_threshold=Fr(2), fail_threshold=Fr(1), test_period=6, min_period=3, check_type='range')
+            c = Case('attenuated_signal_test', [data_input('inp', pat, carrier), time_input('tinp', tt, tcarrier)], kw, n=n,
+                     pat={'inp': pat}, meta={'class': 'fractional-step-window', 't': tt})
+            yield c, specs.Attenuated(c)
     t = regular(3)
     for bad_type in ('variance', 'st', 'ran', '', 'STD', 'stdrange', None):
         c = Case('attenuated_signal_test', [data_input('inp', 'ppp', carrier), time_input('tinp', t, tcarrier)],
@@ -260,6 +282,29 @@ def valid_range(tier, carrier='ndarray'):
                 kw['valid_span'] = tuple(None if v is None else Sc(X.num(v), 'M8', 'ns') for v in kw['valid_span'])
             c = Case('valid_range_test', [inp], kw, n=len(pat), pat={'inp': pat}, meta={'class': kind})
             yield c, specs.ValidRange(Case('valid_range_test', [], spec_kw, n=len(pat), pat={'inp': pat}))
+
+
+def valid_range_typed(tier):
+    """data whose dtype is coarser than the bounds: integers with fractional or missing bounds, daily datetime stamps with a bound at noon -
+    the span keeps its own precision (a value is outside or inside the span as numbers / instants, whatever array type carries it)"""
+    for (lo, hi), si, ei in itertools.product([(Fr(3, 2), Fr(5, 2)), (None, Fr(5, 2)), (Fr(3, 2), None), (1, 3)], (None, False), (None, True)):
+        kw = dict(valid_span=(lo if lo is None else Fr(lo), hi if hi is None else Fr(hi)))
+        if si is not None:
+            kw['start_inclusive'] = si
+        if ei is not None:
+            kw['end_inclusive'] = ei
+        inp = data_input('inp', 'pp', carrier='ndarray_int')
+        c = Case('valid_range_test', [inp], kw, n=2, pat={'inp': 'pp'}, meta={'class': 'integer-data'},
+                 label=f'valid_range_test(integer ndarray; {kw})')
+        yield c, specs.ValidRange(Case('valid_range_test', [], dict(kw), n=2, pat={'inp': 'pp'}))
+    day = 86400
+    for (lo, hi) in ((Fr(day, 2), Fr(5 * day, 2)), (day, 3 * day)):
+        cells = [El(('x', 'inp', i), False) for i in range(2)]
+        inp = Vec.fresh(cells, kind='nd', dtype='M8', unit='D', owner='inp')
+        kw = dict(valid_span=tuple(Sc(X.num(v), 'M8', 'ns') for v in (lo, hi)))
+        c = Case('valid_range_test', [inp], kw, n=2, pat={'inp': 'pp'}, meta={'class': 'daily-stamps'},
+                 label=f'valid_range_test(datetime64[D] data; span {lo}s .. {hi}s after the epoch)')
+        yield c, specs.ValidRange(Case('valid_range_test', [], dict(valid_span=(Fr(lo), Fr(hi))), n=2, pat={'inp': 'pp'}))
 
 
 def pressure(tier):
